@@ -367,13 +367,14 @@ pub fn mon_returned(case: &Case, rec: &Record, j: &Judged) -> Option<Violation> 
             None => (o.parts.uri.clone(), String::new()),
         };
         // strip scheme://authority if present
-        let rp = if let Some(i) = rp.find("://") {
-            match rp[i + 3..].find('/') {
+        // (only an absolute-form target has one: "://" inside an origin-form path — a segment ending in ':' followed by an
+        // empty segment — is path text)
+        let rp = match rp.find("://") {
+            Some(i) if !rp.starts_with('/') => match rp[i + 3..].find('/') {
                 Some(k) => rp[i + 3 + k..].to_string(),
                 None => "/".to_string(),
-            }
-        } else {
-            rp
+            },
+            _ => rp,
         };
         let want_path = a.cpath.clone().unwrap();
         let got_path = rm::canon_path(rp.as_bytes(), case.cfg.s3, Quirks::default());
